@@ -53,42 +53,32 @@ Definition finish (f m k : Z) (forcereduce : bool) (s : st) : res :=
     else (true, num, den)
   else (true, num, den).
 
-(* Two defects of the code as found (frag/C11.findings.json) have one-line repairs (frag/C11.fix-*.diff).
-   The model carries one flag per repair so that it follows the source before and after the repair is
-   applied; the check determines the flags by probing the implementation and records them in the evidence.
-     fx1 = false:  r1 = f; if (f<0) r1 += m;                      (code as found: f < -m stays negative)
-     fx1 = true :  r1 = f; if (f<0) { r1 %= m; if (r1<0) r1 += m; }
-     fx2 = false:  RationalReconstruction(a,b,x,m,a_bound,b_bound) drops the bool of ratrecon
-     fx2 = true :  ... returns ratrecon(...) && b <= b_bound *)
+(* lines 47-52:  r1 = f; if (f<0) Integer::modin(r1,m);   (commit 5d1bca8)
+   Integer::modin(res,n) is mpz_mod for res != 0: the non-negative remainder modulo |n| *)
+Definition init_r1 (f m : Z) : Z := if f <? 0 then f mod (Z.abs m) else f.
 
-(* lines 47-52 *)
-Definition init_r1 (fx1 : bool) (f m : Z) : Z :=
-  if f <? 0 then
-    if fx1 then (let r := Z.rem f m in if r <? 0 then r + m else r) else f + m
-  else f.
-
-Definition ratrecon_fuel (fx1 : bool) (fuel : nat) (f m k : Z) (forcereduce : bool) : option res :=
-  match loop fuel k m 0 (init_r1 fx1 f m) 1 with
+Definition ratrecon_fuel (fuel : nat) (f m k : Z) (forcereduce : bool) : option res :=
+  match loop fuel k m 0 (init_r1 f m) 1 with
   | None => None
   | Some s => Some (finish f m k forcereduce s)
   end.
 
-(* fuel: the product r0*r1 at least halves per iteration once r1 <= r0 (ProofsFuel.v) *)
+(* fuel: the product r0*r1 at least halves per iteration once r1 <= r0 (ProofsLoop.v, fuel_enough) *)
 Definition fuel_of (m : Z) : nat := Z.to_nat (2 * Z.log2 m + 4).
 
-Definition ratrecon (fx1 : bool) (f m k : Z) (forcereduce : bool) : option res :=
-  ratrecon_fuel fx1 (fuel_of m) f m k forcereduce.
+Definition ratrecon (f m k : Z) (forcereduce : bool) : option res :=
+  ratrecon_fuel (fuel_of m) f m k forcereduce.
 
 (* the widening loop  for (newk = k+1; !res && newk < f; newk <<= 1) res = ratrecon(a,b,x,m,newk,fr,true);
    `cur` is the result of the previous call (a, b keep the values of the last call made) *)
-Fixpoint widen (fx1 : bool) (fuel : nat) (x m f newk : Z) (forcereduce : bool) (cur : res) : option res :=
+Fixpoint widen (fuel : nat) (x m f newk : Z) (forcereduce : bool) (cur : res) : option res :=
   let '(ok, _, _) := cur in
   if negb ok && (newk <? f) then
     match fuel with
     | O => None
-    | S n => match ratrecon fx1 x m newk forcereduce with
+    | S n => match ratrecon x m newk forcereduce with
              | None => None
-             | Some r => widen fx1 n x m f (newk * 2) forcereduce r
+             | Some r => widen n x m f (newk * 2) forcereduce r
              end
     end
   else Some cur.
@@ -103,36 +93,37 @@ Definition normalise (f m : Z) : Z :=
   else
     if f >? m then Z.rem f m else f.
 
-Definition RR7 (fx1 : bool) (f m k : Z) (forcereduce recursive : bool) : option res :=
+Definition RR7 (f m k : Z) (forcereduce recursive : bool) : option res :=
   let x := normalise f m in
   if x =? 0 then Some (true, 0, 1)
   else
-    match ratrecon fx1 x m k forcereduce with
+    match ratrecon x m k forcereduce with
     | None => None
-    | Some r => if recursive then widen fx1 (widen_fuel f) x m f (k + 1) forcereduce r else Some r
+    | Some r => if recursive then widen (widen_fuel f) x m f (k + 1) forcereduce r else Some r
     end.
 
 (* lines 233-236: RationalReconstruction(a,b,x,m) *)
-Definition RR4 (fx1 : bool) (x m : Z) : option res := ratrecon fx1 x m (Z.sqrt m) true.
+Definition RR4 (x m : Z) : option res := ratrecon x m (Z.sqrt m) true.
 
-(* lines 237-245: RationalReconstruction(a,b,x,m,a_bound,b_bound): the bool of ratrecon is dropped,
-   the function returns  b <= b_bound *)
-Definition RR6 (fx1 fx2 : bool) (x m a_bound b_bound : Z) : option res :=
+(* lines 237-245: RationalReconstruction(a,b,x,m,a_bound,b_bound), with the repair frag/C11.fix-1.diff:
+     bool res = ratrecon(a,b,x,m,(bound>a_bound?bound:a_bound),true,false);  return res && (b <= b_bound);
+   (the code as found drops the bool of ratrecon and returns  b <= b_bound  alone) *)
+Definition RR6 (x m a_bound b_bound : Z) : option res :=
   let bound := Z.quot x b_bound in
   let k := if bound >? a_bound then bound else a_bound in
-  match ratrecon fx1 x m k true with
+  match ratrecon x m k true with
   | None => None
-  | Some (ok, a, b) => Some ((if fx2 then ok else true) && (b <=? b_bound), a, b)
+  | Some (ok, a, b) => Some (ok && (b <=? b_bound), a, b)
   end.
 
 (* lines 194-201: Rational::Rational(f,m,k,recurs); flags = Rational::flags (Reduce/NoReduce).
    The constructor has no success report: the result is the (num, den) of the last call. *)
-Definition RatCtor (fx1 : bool) (f m k : Z) (flags recurs : bool) : option res :=
-  match ratrecon fx1 f m k flags with
+Definition RatCtor (f m k : Z) (flags recurs : bool) : option res :=
+  match ratrecon f m k flags with
   | None => None
-  | Some r => if recurs then widen fx1 (widen_fuel f) f m f (k + 1) flags r else Some r
+  | Some r => if recurs then widen (widen_fuel f) f m f (k + 1) flags r else Some r
   end.
 
 (* qfield.h 135-140 *)
-Definition QF_ratrecon_k (fx1 : bool) (f m k : Z) (flags recurs : bool) : option res := RatCtor fx1 f m k flags recurs.
-Definition QF_ratrecon (fx1 : bool) (f m : Z) (flags recurs : bool) : option res := RatCtor fx1 f m (Z.sqrt m) flags recurs.
+Definition QF_ratrecon_k (f m k : Z) (flags recurs : bool) : option res := RatCtor f m k flags recurs.
+Definition QF_ratrecon (f m : Z) (flags recurs : bool) : option res := RatCtor f m (Z.sqrt m) flags recurs.
